@@ -11,8 +11,16 @@
    sets with pairwise distinct cores, its transitions are deterministic and complete, and each
    target has exactly the core of the advanced kernel's closure (Build/LoopInv.v BInv,
    Build/MachineSpec.v MInv).
-   NOT proved: C17_exact — the lookahead sets are the LEAST solution (they are proved closed
-   and justified item by item, which is what correctness of the parser needs).  Decided per grammar by the check: tables read from
+   AND the lookahead sets are the LEAST solution: an item is in the annotation of a state exactly
+   when it is derivable from the start item by the closure rule (lookaheads FIRST(beta a), with the
+   FIRST map the generator computed, itself proved closed) and by following transitions
+   (C17_lookahead_sets_are_exactly_the_derivable_items; Build/DerProofs.v: derivability is an
+   invariant of the worklist construction, merge included).  Distinct states have distinct LR(0)
+   cores and each target has the core of the closure of the advanced kernel (BInv, machine_uniq):
+   the automaton is the LR(0) automaton of the grammar and the lookaheads are the LALR(1) ones.
+   NOT proved: the equivalence of this least-fixpoint characterisation with the textbook
+   definition by merging canonical LR(1) states (decided per grammar by the check against a
+   brute-force canonical-LR(1)-then-merge reference), and that the FIRST map is the least one.  Decided per grammar by the check: tables read from
    the emitted text compared cell for cell with a brute-force LALR(1) reference up to renumbering. *)
 From Coq Require Import List.
 From Kiki Require Import Base.Ord Base.Chars Data LR.Driver LR.Grammar LR.Inv LR.Validate LR.ValidateProofs.
@@ -32,15 +40,26 @@ Section C17.
   Proof. exact (validate_Inv T ann ft Hv). Qed.
 End C17.
 
-From Kiki Require Import LR.Viable Emit.Parser Pipeline PipelineProofs.
+From Kiki Require Import LR.Viable LR.Least Emit.Parser Pipeline PipelineProofs.
 
 Theorem C17_all_tables_carry_the_invariants : forall ho digest src out text,
   perm_hash_order ho -> generate_full ho digest src = Ok (out, text) ->
   exists pt (ann : list (list Grammar.item)) (ft : first_table),
     ptable_of (go_file out) (go_table out) = Some pt /\
-    Inv pt ann (fseq ft) /\ Inv2 pt ann /\ (forall P (kind : P -> nat), FirstOK kind pt (fseq ft)) /\ Inv3 pt ann.
+    Inv pt ann (fseq ft) /\ Inv2 pt ann /\ (forall P (kind : P -> nat), FirstOK kind pt (fseq ft)) /\ Inv3 pt ann /\
+    Least pt ann (fseq ft).
 Proof. exact generate_tables_invariants. Qed.
+
+(* the lookahead sets are LEAST: an item is in a state exactly when it is derivable from the start
+   item by the closure rule (lookaheads FIRST(beta a)) and by following transitions *)
+Theorem C17_lookahead_sets_are_exactly_the_derivable_items : forall ho digest src out text,
+  perm_hash_order ho -> generate_full ho digest src = Ok (out, text) ->
+  exists pt (ann : list (list Grammar.item)) (ft : first_table),
+    ptable_of (go_file out) (go_table out) = Some pt /\
+    forall s it, In_state ann it s <-> lder pt (fseq ft) s it.
+Proof. exact emitted_annotation_is_exact. Qed.
 
 Print Assumptions C17_every_cell_is_demanded.
 Print Assumptions C17_every_demand_is_in_the_table.
 Print Assumptions C17_all_tables_carry_the_invariants.
+Print Assumptions C17_lookahead_sets_are_exactly_the_derivable_items.
